@@ -33,7 +33,8 @@ rtg("C01", "differential replay of delivery histories (and sync topologies) agai
     extra_steps=one("native-dbg", "mon-rt", "rt_sync", label="native-dbg-sync-topologies", scale=50) + _file_storage() + _vm_policy())
 rtg("C02", "online check of the policy event log per sink transaction + seq-list fact, incl. spill-forcing graphs",
     "Every braid the runtime runs is observed through the audit policy: no duplicate, ancestors first, never a merge, applied set equals the reference region; "
-    "the order-sensitive seq fact lists each non-quiet command once. Large cases overflow the braid buffer and convergence blocks into a counting spill (counters must be > 0).",
+    "the order-sensitive seq fact lists each non-quiet command once. Large cases overflow the braid buffer and convergence blocks into a counting spill (counters must be > 0); "
+    "each large case is also re-run with the k-th read of a spilled braid block failing: the call must fail or the committed facts must equal the reference.",
     extra_steps=_file_storage(100))
 rtg("C03", "reference-model comparison of every committed fact state and every observed braid order",
     "After every commit the fact dump equals the reference braid (priority,id ties; lone-strand start; finalize first) for the frontier, independent of the segment layout each history produced; "
@@ -49,9 +50,11 @@ rtg("C06", "fault-position sweep of rejecting commands with continue-and-commit"
 rtg("C07", "before/after snapshots around succeeding and failing actions",
     "Actions publishing 0-5 commands on single/multi-head graphs, failing after j publishes or through a rejected publish: failure leaves heads, graph, facts, hello head unchanged and commits no effect; success gives one head above all previous heads with reference facts.")
 rtg("C08", "interleaving generator over several open transactions, actions and commits vs a (committed set, stamp) model",
-    "Random interleavings on one client: the committed command set never shrinks; commit succeeds iff no other commit/action happened since the transaction first read the heads, else ConcurrentTransaction with unchanged state.")
+    "Random interleavings on one client: the committed command set never shrinks; commit succeeds iff no other commit/action happened since the transaction first read the heads, else ConcurrentTransaction with unchanged state. "
+    "One case in four runs on the file-backed storage reopened after the bootstrap commit (the race starts on a storage instance that has not committed anything itself).")
 rtg("C09", "frontier invariant checked after every commit/action against the reference DAG",
-    "Heads strictly ascending by id, duplicate-free, equal to the frontier of the committed set; a walk from the heads reaches exactly the delivered commands; add_commands counts match.",
+    "Heads strictly ascending by id, duplicate-free, equal to the frontier of the committed set; a walk from the heads reaches exactly the delivered commands; add_commands counts match. "
+    "The same invariant is checked inside the transaction-interleaving workload of C08 (600 cases here).",
     extra_steps=_file_storage())
 rtg("C10", "enumerated first-command shapes and init-like intruders",
     "Correct init, parented, policy-less, foreign-id, empty and policy-rejected first commands on an empty provider; own init and foreign parentless commands inside later batches; list_graph_ids/get_storage observed.")
@@ -73,7 +76,8 @@ reg("C12", native("mon-rt", "rt_facts"),
 reg("C13", native("mon-rt", "rt_facts"),
     "snapshot-stack model for checkpoint/revert on linear perspectives; session reverts via failing session operations",
     "Random writes, deletes, add_command, checkpoints at command boundaries and reverts to any earlier checkpoint, including reverts that must discard writes made after the last command "
-    "(a rule that wrote and then failed); every revert is followed by the full query comparison and a head_address check; the segment finally written is compared too.",
+    "(a rule that wrote and then failed); every revert is followed by the full query comparison and a head_address check; the segment finally written is compared too. "
+    "Session half: 300 cases of the C14 session workload; a session that disagrees with its overlay model after a failing operation is reported here as `C14:...`.",
     "Linear-perspective checkpoints have command granularity by construction (index = command count), so they are taken only where the runtime takes them.", design_ref="DESIGN.md 4 (C13)")
 reg("C14", native("mon-rt", "rt_facts") + one("miri", "mon-rt", "rt_facts", scale=1, timeout=2400, set={"miri_cases": "3"}),
     "overlay model (committed facts + session writes) vs queries observed inside policy calls; Miri on the yoked iterator",
@@ -92,8 +96,11 @@ reg("C16", native("mon-rt", "rt_sync"),
     "session-by-session progress oracle over real SyncRequester/SyncResponder exchanges between generated replica pairs and groups, plus convergence at quiescence",
     "A requests from B in repeated sessions (full sessions; one-request/one-response exchanges; receive buffers from 200 bytes up; persistent or fresh peer caches) over graph pairs with overlaps from only-init to "
     "all-but-one-branch, including >100 heads, >100 segments and long segments: every full session must shrink the missing set, everything must arrive within a logical bound, and syncing in both directions "
-    "to quiescence must leave equal heads, facts and hello heads. The 'eventually' of the statement is restated as this bounded progress.",
-    "Known finding (known_findings.jsonl): requesters holding more than 100 heads livelock; any other lack of progress fails the check. In-memory storage; message transport is a buffer copy.",
+    "to quiescence must leave equal heads, facts and hello heads. The 'eventually' of the statement is restated as this bounded progress. One case in six is a directed overlap (requester with few long segments "
+    "holding the trunk up to the fork plus a side branch; responder random or laid out by hand around the fork); the requester's sample is decoded from the poll message; in one-response mode two exchanges with the same "
+    "sample and no new command are reported as the livelock they prove; unsound or non-terminating sessions (C17 findings) are reported here as `C17:...` when C17 is not part of the run.",
+    "Known findings (known_findings.jsonl): requesters holding more than 100 heads livelock; sessions that only resend held commands while the missing ones lie above the responder's max_cut window. Any other lack of "
+    "progress fails the check. In-memory storage; message transport is a buffer copy.",
     design_ref="DESIGN.md 4 (C16/C17)")
 reg("C17", native("mon-rt", "rt_sync"),
     "per-message soundness and ordering checks on every response of every session",
